@@ -1,0 +1,23 @@
+//go:build verif
+
+package bridgesync
+
+import (
+	"github.com/0xPolygon/cdk-contracts-tooling/contracts/pp/l2-sovereign-chain/polygonzkevmbridgev2"
+	"github.com/agglayer/aggkit/log"
+	"github.com/agglayer/aggkit/sync"
+	aggkittypes "github.com/agglayer/aggkit/types"
+	"github.com/ethereum/go-ethereum/common"
+)
+
+// VerifBuildAppender returns the real log appender map of the bridge syncer (the same call as in newDownloader) for the
+// verification harnesses: logs of the bridge contract go in, bridgesync.Event values come out.
+func VerifBuildAppender(
+	client aggkittypes.EthClienter,
+	bridgeAddr common.Address,
+	syncFullClaims bool,
+	bridgeContractV2 *polygonzkevmbridgev2.Polygonzkevmbridgev2,
+	logger *log.Logger,
+) (sync.LogAppenderMap, error) {
+	return buildAppender(client, bridgeAddr, syncFullClaims, bridgeContractV2, logger)
+}
